@@ -49,8 +49,11 @@ class Decoder(Opaque):
         self.rt = 'Decoder'
 
 
-def dec_err(kind):
-    return Enum('Err', [Agg([], ty='DecodeError::' + kind)], 'Result')
+def dec_err(kind, *fields):
+    # a real enum value (variant order in engine.STD_ENUMS): code that matches on the error kind (e.g. `Err(DecodeError::UnexpectedEnd { .. })`) sees the right variant
+    if kind == 'UnexpectedEnd' and not fields:
+        fields = (usize(1),)
+    return Enum('Err', [Enum(kind, list(fields), 'DecodeError')], 'Result')
 
 
 def enc_err(kind):
@@ -165,7 +168,7 @@ def take(e, dec, want):
     if x is None:
         return None, dec_err('UnexpectedEnd')
     if isinstance(x, tuple) and x[0] == 'ioerr':
-        return None, Enum('Err', [Agg([x[1]], ty='DecodeError::Io')], 'Result')
+        return None, dec_err('Io', x[1], usize(0))
     dec.consumed += 1
     if not isinstance(x, Tok):
         return None, dec_err('Foreign')         # a raw byte where a token is expected: foreign input
